@@ -63,6 +63,7 @@ def generate(rng, tier):
     elif tier == "thorough":
         yield from L.exhaustive(L.HIER3, 2)
         yield from L.exhaustive(L.HIER4, 3)
+        yield from L.exhaustive([L.HIER4[2], L.HIER4[5], L.HIER4[7]], 4, fail_sets=False, min_offers=4)
         n, nso = 100000, 20000
     else:
         yield from L.exhaustive(L.HIER3 + L.HIER4, 2)
@@ -81,6 +82,36 @@ def generate(rng, tier):
         yield L.random_sort_case(rng)
     for i in range(nso // 5):
         yield L.random_heap_case(rng)
+
+
+class _Timeout(BaseException):
+    pass
+
+
+def _alarm(signum, frame):
+    raise _Timeout()
+
+
+QUERY_TIMEOUT_S = 3.0   # the generators bound the search to <= 1500 pushed paths (milliseconds)
+_TIMEOUTS = [0]         # per process: after two timeouts the guard drops to 0.3 s so a broken tree is reported fast
+
+
+def _guarded(fn):
+    """Run fn() under a wall-clock guard; returns (result, exception).  A search that does not
+    return (e.g. cycle avoidance lost) becomes an observation instead of hanging the check."""
+    import signal
+    signal.signal(signal.SIGALRM, _alarm)
+    signal.setitimer(signal.ITIMER_REAL, QUERY_TIMEOUT_S if _TIMEOUTS[0] < 2 else 0.3)
+    try:
+        try:
+            return fn(), None
+        finally:
+            signal.setitimer(signal.ITIMER_REAL, 0)
+    except _Timeout as e:
+        _TIMEOUTS[0] += 1
+        return None, e
+    except Exception as e:
+        return None, e
 
 
 def _hit(sig, what, **kw):
@@ -168,15 +199,17 @@ def run_impl(case):
         r = None
         if kind in ("a", "d", "s"):
             dflt = L.Default()
-            try:
-                if kind == "a":
-                    r = mgr.adapt(src, target)
-                elif kind == "d":
-                    r = mgr.adapt(src, target, dflt)
-                else:
-                    r = mgr.supports_protocol(src, target)
-            except Exception as e:
-                exc = e
+            if kind == "a":
+                r, exc = _guarded(lambda: mgr.adapt(src, target))
+            elif kind == "d":
+                r, exc = _guarded(lambda: mgr.adapt(src, target, dflt))
+            else:
+                r, exc = _guarded(lambda: mgr.supports_protocol(src, target))
+            if isinstance(exc, _Timeout):
+                outs.append("timeout")
+                hits.append(_hit("nontermination", "%s did not return within %.0f s (factory calls so far: %d)" % (
+                    q, QUERY_TIMEOUT_S, len(ctx.log)), query=q, no_shrink=True))
+                continue
             if exc is not None:
                 obs = "err " + exc_name(exc)
             elif kind == "s":
@@ -197,12 +230,14 @@ def run_impl(case):
             old = aapi.get_global_adaptation_manager()
             aapi.set_global_adaptation_manager(mgr)
             try:
-                try:
-                    h.x = src
-                except Exception as e:
-                    exc = e
+                _, exc = _guarded(lambda: setattr(h, "x", src))
             finally:
                 aapi.set_global_adaptation_manager(old)
+            if isinstance(exc, _Timeout):
+                outs.append("timeout")
+                hits.append(_hit("nontermination", "%s did not return within %.0f s" % (q, QUERY_TIMEOUT_S),
+                                 query=q, no_shrink=True))
+                continue
             log_s = ctx.show_log()
             trait_log = list(ctx.log)
             tags.add("t:%s%d" % (cls, mode))
@@ -222,10 +257,8 @@ def run_impl(case):
             ctx.reset(src)
             ref_exc = None
             ref = None
-            try:
-                ref = mgr.adapt(src, target, None) if src is not None else None
-            except Exception as e:
-                ref_exc = e
+            if src is not None:
+                ref, ref_exc = _guarded(lambda: mgr.adapt(src, target, None))
             hits += _oracle_trait(cls, mode, an, src, target, exc, x, x_, ref, ref_exc, trait_log, ctx)
             continue
         outs.append("bad-query")
